@@ -200,7 +200,7 @@ class Sdiv(ArmInstruction):
     rd = Operand("rd", ArmRegister, write=True)
     rn = Operand("rn", ArmRegister, read=True)
     rm = Operand("rm", ArmRegister, read=True)
-    syntax = Syntax(["sdiv", rd, ",", rn, ",", rm])
+    syntax = Syntax(["sdiv", " ", rd, ",", rn, ",", rm])
 
     def encode(self):
         tokens = self.get_tokens()
@@ -222,7 +222,7 @@ class Udiv(ArmInstruction):
     rd = Operand("rd", ArmRegister, write=True)
     rn = Operand("rn", ArmRegister, read=True)
     rm = Operand("rm", ArmRegister, read=True)
-    syntax = Syntax(["udiv", rd, ",", rn, ",", rm])
+    syntax = Syntax(["udiv", " ", rd, ",", rn, ",", rm])
     patterns = {"cond": AL}
 
     def encode(self):
@@ -247,7 +247,7 @@ class Mls(ArmInstruction):
     rn = Operand("rn", ArmRegister, read=True)
     rm = Operand("rm", ArmRegister, read=True)
     ra = Operand("ra", ArmRegister, read=True)
-    syntax = Syntax(["mls", rd, ",", rn, ",", rm, ",", ra])
+    syntax = Syntax(["mls", " ", rd, ",", rn, ",", rm, ",", ra])
     patterns = {"cond": AL}
 
     def encode(self):
@@ -777,7 +777,7 @@ class Ldrsh_reg(ArmInstruction):
 class Adr(ArmInstruction):
     rd = Operand("rd", ArmRegister, write=True)
     label = Operand("label", str)
-    syntax = Syntax(["adr", rd, ",", label])
+    syntax = Syntax(["adr", " ", rd, ",", label])
 
     def relocations(self):
         return [AdrImm12Relocation(self.label)]
@@ -844,7 +844,7 @@ class Mcr(McrBase):
     opc2 = Operand("opc2", int)
     b20 = 0
     syntax = Syntax(
-        ["mcr", coproc, ",", opc1, ",", rt, ",", crn, ",", crm, ",", opc2]
+        ["mcr", " ", coproc, ",", opc1, ",", rt, ",", crn, ",", crm, ",", opc2]
     )
 
 
@@ -857,7 +857,7 @@ class Mrc(McrBase):
     opc2 = Operand("opc2", int)
     b20 = 1
     syntax = Syntax(
-        ["mrc", coproc, ",", opc1, ",", rt, ",", crn, ",", crm, ",", opc2]
+        ["mrc", " ", coproc, ",", opc1, ",", rt, ",", crn, ",", crm, ",", opc2]
     )
 
 
